@@ -38,7 +38,9 @@ MANIFEST = {
             "one target - first 'w' or 'a', then 'a'; calls or streams; any split incl. empty pieces - leaves header-once ++ ONE dump "
             "of the concatenation; invariant proof by induction over the sessions and the write list), writes_compose / _owing / "
             "_append / _stream; roundtrip for text/identifier/int/int-list/quality columns (reference parse of the dump = the "
-            "table, using parse_format_int); float_partial (what is proved for float cells: the text travels verbatim; value "
+            "table, using parse_format_int); write_read_model / fasta_write_read_model / fastq_write_read_model (the model of the code's "
+            "READER, C02, applied to the bytes of the model of the code's WRITER returns the table, for every schema of modelled "
+            "column types / every wrap width / every FASTQ table); float_partial (what is proved for float cells: the text travels verbatim; value "
             "precision is corresponded); fasta_wrap / lineLens_sum / fasta_unwrap / fasta_layout (flat-fill writer = canonical "
             "wrapped layout for every width and every list of records, empty sequences included), fastq_layout; refutations of "
             "the repaired rules (sessionOld, headerLenOld). FASTA line structure for lengths 0..242, the default VCF header and FASTQ "
